@@ -16,10 +16,12 @@ import (
 )
 
 type vxSnapWorld struct {
-	db      *DB
-	pos     ltx.TXID
-	atPos   [3]uint64 // page images (tags) of pages 1..3 at position pos
-	sizePos uint32    // database size at position pos
+	laterFrames []vxFrame // committed frames after the replicated range (same generation)
+	laterOffset int64     // WAL offset of the first of them
+	db          *DB
+	pos         ltx.TXID
+	atPos       [3]uint64 // page images (tags) of pages 1..3 at position pos
+	sizePos     uint32    // database size at position pos
 }
 
 // vxSymFrames returns n committed single-frame transactions on pages 1..3 (the
@@ -51,7 +53,12 @@ func vxApplyFrames(state *[3]uint64, fr []vxFrame) {
 //	scenario 1: the application checkpointed and restarted the WAL after the last
 //	            sync (litestream was on read mark 0): the database file holds the
 //	            state at pos, the new generation holds `later` newer transactions.
-func vxSnapshotWorld() *vxSnapWorld {
+func vxSnapshotWorld() *vxSnapWorld { return vxSnapshotWorldOpts(false) }
+
+// vxSnapshotWorldOpts: with sameGenLater the history is scenario 0 with at least
+// one later transaction and the same process (for harnesses that let another
+// round run in between).
+func vxSnapshotWorldOpts(sameGenLater bool) *vxSnapWorld {
 	w := &vxSnapWorld{pos: 3}
 	dir := vx.TempDir()
 	path := dir + "/app.db"
@@ -72,10 +79,15 @@ func vxSnapshotWorld() *vxSnapWorld {
 	vxApplyFrames(&w.atPos, g0.frames)
 	later := vx.Choose("later", 0, 2)
 	scenario := vx.Choose("scenario", 0, 1)
+	if sameGenLater {
+		vx.Assume(later >= 1 && scenario == 0)
+	}
 	var gens []vxGen
 	dbState := base
 	if scenario == 0 {
-		g0.frames = append(g0.frames, vxSymFramesSized(later, "late", size)...)
+		w.laterFrames = vxSymFramesSized(later, "late", size)
+		w.laterOffset = WALHeaderSize + int64(c)*int64(WALFrameHeaderSize+vxPageSize)
+		g0.frames = append(g0.frames, w.laterFrames...)
 		if vx.Fault("openTx") {
 			g0.frames = append(g0.frames, vxFrame{pgno: uint32(vx.Range("openpg", 1, uint64(size))), commit: 0, tag: vx.U64("opentag")})
 		}
@@ -112,7 +124,7 @@ func vxSnapshotWorld() *vxSnapWorld {
 	}
 	// what the running process remembers: the end of the last sync (same process)
 	// or nothing (fresh process)
-	if vx.Fault("sameProcess") {
+	if sameGenLater || vx.Fault("sameProcess") {
 		db.syncState.lastSyncedWALOffset = WALHeaderSize + int64(c)*fs
 		db.syncState.syncedToWALEnd = scenario == 1 || later == 0
 	}
